@@ -141,6 +141,14 @@ def rule_sb_rd(ctx, rep):
             rep.ok("C02.sb-rd", fl + ".store≺barrier≺futex", "reader-word store is seq_cst", [s.where() for s in reach])
         # the outermost unlock reaches the wake-up test on every path
         outer = [s for s in sts if c01.guarded_by(f, s, lambda a: a[0] == "eq" and a[2][0] == "c" and a[2][1] != 0 and a[1][0] == "bin" and a[1][1] == "and")]
+        if not outer:
+            # the store that reaches the wake-up test is selected by comparing the *whole* reader word (phase bit included) with
+            # COUNT: a reader that entered under the other phase never takes the waking branch on its outermost unlock
+            whole = [s for s in reach if c01.guarded_by(f, s, lambda a: a[0] == "eq" and a[2][0] == "c" and a[2][1] != 0 and a[1][0] == "load")]
+            if whole:
+                rep.bad("C02.sb-rd", fl + ".outermost-test-masks-nesting", "the `outermost unlock` test compares the whole reader word with the count increment instead of its nesting field "
+                        "(word & NEST_MASK): with the phase bit set the outermost unlock is taken for a nested one and the sleeping grace period is not woken", [whole[0].where()])
+                continue
         pat.require(outer, "%s: outermost store" % fl)
         rep.must_pass("C02.sb-rd", fl + ".outermost-tests-futex", f, outer, None, lambda i: i in fl_loads, to_exit=True, what="the outermost read_unlock always tests gp.futex")
     F = FL["qsbr"]
